@@ -87,6 +87,15 @@ def handle (ws : List String) : String :=
          | none => "ok none"
          | some coll => "ok " ++ " ".intercalate (coll.map fun (t, side) =>
              s!"{t.kind.toString}:{side}:" ++ ",".intercalate (t.ps.map fun v => toString v.toBits)))
+  | ["cards", hx] =>
+      -- one block of a deck -> the one-line contents of its cards (comments skipped)
+      (match unhex hx with
+       | none => "err bad-hex"
+       | some txt =>
+         -- str.splitlines on \n, \r\n, \r (the generator uses \n only)
+         let lines := (txt.splitOn "\n").map (·.toList)
+         let lines := if lines.getLast? == some [] then lines.dropLast else lines
+         "ok " ++ " ".intercalate ((Lex.contents lines).map fun c => hex (String.ofList c)))
   | "kwmodel" :: toks =>
       -- option tokens of a cell card (lower-cased, '=' and parentheses already blanked) -> keyword record
       (match parseKeywords toks with
